@@ -328,7 +328,13 @@ func (r *router) AddRealm(config *RealmConfig) error {
 	var err error
 	sync := make(chan struct{})
 	if !r.submit(func() {
-		_, err = r.addRealm(config)
+		if r.closed {
+			// Close has already shut down the realms; a realm added now
+			// would never be closed.
+			err = errors.New("router is closed")
+		} else {
+			_, err = r.addRealm(config)
+		}
 		close(sync)
 	}) {
 		return errors.New("router is closed")
